@@ -164,7 +164,10 @@ def run(ctx):
             for dry in (False, True):
                 cid = f"{b['id']}_{'-'.join(map(str, ids)) or 'gc'}_{'dry' if dry else 'real'}"
                 info[cid] = (b, ids, dry, None, "ok")
-                cases.append({"id": cid, "steps": b["steps"] + [{"op": "delete", "bands": ids, "dry": dry}] + after_steps(nb)})
+                st_del = {"op": "delete", "bands": ids, "dry": dry}
+                if ctx.rng.random() < (0.5 if dry else 0.2):
+                    st_del["break_lock"] = True          # with no lock there to break: must behave the same
+                cases.append({"id": cid, "steps": b["steps"] + [st_del] + after_steps(nb)})
     res1 = ctx.cvh_run(cases, shards=16)
     # second wave: crash points and read faults for the real runs
     cases2 = []
